@@ -27,25 +27,25 @@ fn c01_vec_u8_u16() {
     };
     match (&r, &exp) {
         (Ok(()), Ok(())) => {}
-        (Err(e), Err(k)) => assert!(e.kind == *k),
-        _ => panic!("acceptance differs from the reference decoder"),
+        (Err(e), Err(k)) => assert!(e.kind == *k, "C02,C06: error kind differs from the reference decoder"),
+        _ => assert!(false, "C02: acceptance differs from the reference decoder"),
     }
     if r.is_ok() {
         let v = FlatVec::<u8, u16>::from_bytes(b).unwrap();
         let n = rd_u16(b, 0) as usize;
-        assert!(v.len() == n);
-        assert!(v.len() <= v.capacity());
-        assert!(v.capacity() == (len - 2) / 2 * 2);
-        assert!(v.size() <= len);
-        assert!(v.as_bytes().len() <= len);
+        assert!(v.len() == n, "C02: len() differs from the reference decoding");
+        assert!(v.len() <= v.capacity(), "C02: len > capacity in an accepted view");
+        assert!(v.capacity() == (len - 2) / 2 * 2, "C02,C04: capacity differs from the reference");
+        assert!(v.size() <= len, "C05: size() exceeds the mapped bytes");
+        assert!(v.as_bytes().len() <= len, "C02,C04: as_bytes() longer than the given slice");
         let s = v.as_slice();
         let mut i = 0;
         while i < N {
-            if i < n { assert!(s[i] == b[2 + i]); }
+            if i < n { assert!(s[i] == b[2 + i], "C02: element differs from the reference decoding"); }
             i += 1;
         }
         // the value's own bytes validate again
-        assert!(FlatVec::<u8, u16>::validate(v.as_bytes()).is_ok());
+        assert!(FlatVec::<u8, u16>::validate(v.as_bytes()).is_ok(), "C02: the value's own bytes do not validate again");
     }
 }
 
@@ -58,13 +58,13 @@ fn c01_vec_bool_u8() {
     let b = sym_slice(len, 1, off, N);
     let r = FlatVec::<Bool, u8>::validate(b);
     if len < 1 {
-        assert!(matches!(r, Err(ref e) if e.kind == ErrorKind::InsufficientSize));
+        assert!(matches!(r, Err(ref e) if e.kind == ErrorKind::InsufficientSize), "C02,C06: short input must be InsufficientSize");
         return;
     }
     let n = b[0] as usize;
     let cap = len - 1;
     if n > cap {
-        assert!(matches!(r, Err(ref e) if e.kind == ErrorKind::InsufficientSize));
+        assert!(matches!(r, Err(ref e) if e.kind == ErrorKind::InsufficientSize), "C02,C06: len > capacity must be InsufficientSize");
         return;
     }
     // first offending byte
@@ -75,12 +75,14 @@ fn c01_vec_bool_u8() {
         i += 1;
     }
     match bad {
-        None => assert!(r.is_ok()),
+        None => assert!(r.is_ok(), "C02: well-formed encoding rejected"),
         Some(p) => {
+            assert!(r.is_err(), "C02: Bool other than 0/1 accepted");
             let e = r.unwrap_err();
-            assert!(e.kind == ErrorKind::InvalidData);
+            assert!(e.kind == ErrorKind::InvalidData, "C02: wrong error kind for a bad Bool");
             // C19: position of an offending byte
-            assert!(e.pos < len && b[e.pos] > 1 && e.pos >= 1 && e.pos <= n, "C19: error position is not an offending byte");
+            assert!(e.pos < len && e.pos >= 1 && e.pos <= n, "C19: error position is not an offending byte");
+            assert!(b[e.pos] > 1, "C19: error position is not an offending byte");
             let _ = p;
         }
     }
@@ -113,7 +115,7 @@ fn c01_flex_u8_u8() {
         k += 1;
     }
     assert!(r.is_ok() == exp_ok, "C02: FlexVec acceptance differs from the reference chain walk");
-    if let Err(e) = r { assert!(e.kind == ErrorKind::InsufficientSize); }
+    if let Err(e) = r { assert!(e.kind == ErrorKind::InsufficientSize, "C02,C06: FlexVec<u8,u8> can only fail with InsufficientSize"); }
 }
 
 /// unsized enum with a FlatVec tail: totality + acceptance + consistent view (len <= capacity)
@@ -124,23 +126,23 @@ fn c01_uenum() {
     let (len, off) = any_len_off(N, 4);
     let b = sym_slice(len, 4, off, N);
     let r = UEnum::from_bytes(b);
-    if off != 0 { assert!(matches!(r, Err(ref e) if e.kind == ErrorKind::BadAlign)); return; }
+    if off != 0 { assert!(matches!(r, Err(ref e) if e.kind == ErrorKind::BadAlign), "C02: misaligned slice must be BadAlign"); return; }
     if let Ok(v) = r {
         assert!(core::mem::size_of_val(v) <= len, "C04: mapped value claims more bytes than the slice");
         assert!(v.size() <= len, "C05: size() exceeds the mapped bytes");
         match v.as_ref() {
-            UEnumRef::A => assert!(b[0] == 0),
-            UEnumRef::B(x, y) => { assert!(b[0] == 1); assert!(*x == b[4]); assert!(*y == rd_u16(b, 6)); }
+            UEnumRef::A => assert!(b[0] == 0, "C02: variant differs from the tag byte"),
+            UEnumRef::B(x, y) => { assert!(b[0] == 1, "C02: variant differs from the tag byte"); assert!(*x == b[4], "C02,C04: field differs from the reference decoding"); assert!(*y == rd_u16(b, 6), "C02,C04: field differs from the reference decoding"); }
             UEnumRef::C { offset, bytes } => {
-                assert!(b[0] == 2);
-                assert!(*offset == rd_u32(b, 4));
+                assert!(b[0] == 2, "C02: variant differs from the tag byte");
+                assert!(*offset == rd_u32(b, 4), "C02,C04: field differs from the reference decoding");
                 assert!(bytes.len() <= bytes.capacity(), "C02: len > capacity in an accepted view");
-                assert!(bytes.len() == rd_u16(b, 8) as usize);
+                assert!(bytes.len() == rd_u16(b, 8) as usize, "C02,C04: field differs from the reference decoding");
             }
         }
     } else {
         let e = r.err().unwrap();
-        if len >= 4 && b[0] > 2 { assert!(e.kind == ErrorKind::InvalidEnumTag && e.pos == 0); }
+        if len >= 4 && b[0] > 2 { assert!(e.kind == ErrorKind::InvalidEnumTag, "C02: wrong error kind for a bad tag"); assert!(e.pos == 0, "C19: tag error not reported at the tag byte"); }
     }
 }
 
@@ -152,16 +154,16 @@ fn c01_ustruct() {
     let (len, off) = any_len_off(N, 2);
     let b = sym_slice(len, 2, off, N);
     let r = UStruct::from_bytes(b);
-    if off != 0 { assert!(matches!(r, Err(ref e) if e.kind == ErrorKind::BadAlign)); return; }
-    if len < 6 { assert!(matches!(r, Err(ref e) if e.kind == ErrorKind::InsufficientSize)); return; }
+    if off != 0 { assert!(matches!(r, Err(ref e) if e.kind == ErrorKind::BadAlign), "C02: misaligned slice must be BadAlign"); return; }
+    if len < 6 { assert!(matches!(r, Err(ref e) if e.kind == ErrorKind::InsufficientSize), "C02,C06: short input must be InsufficientSize"); return; }
     let n = rd_u16(b, 4) as usize;
     let cap = (len - 6) / 2 * 2;
-    assert!(r.is_ok() == (n <= cap));
+    assert!(r.is_ok() == (n <= cap), "C02: acceptance differs from the reference decoder");
     if let Ok(v) = r {
         assert!(core::mem::size_of_val(v) <= len, "C04: mapped value claims more bytes than the slice");
-        assert!(v.a == b[0] && v.b == rd_u16(b, 2));
-        assert!(v.c.len() == n && v.c.capacity() == cap);
-        assert!(v.size() <= len && v.size() % 2 == 0);
+        assert!(v.a == b[0] && v.b == rd_u16(b, 2), "C02,C04: field differs from the reference decoding");
+        assert!(v.c.len() == n && v.c.capacity() == cap, "C02,C04: tail differs from the reference decoding");
+        assert!(v.size() <= len && v.size() % 2 == 0, "C05: size() exceeds the mapped bytes or is not a multiple of ALIGN");
     }
 }
 
@@ -173,11 +175,11 @@ fn c01_upad() {
     let (len, off) = any_len_off(N, 8);
     let b = sym_slice(len, 8, off, N);
     let r = UPad::from_bytes(b);
-    if off != 0 { assert!(matches!(r, Err(ref e) if e.kind == ErrorKind::BadAlign)); return; }
+    if off != 0 { assert!(matches!(r, Err(ref e) if e.kind == ErrorKind::BadAlign), "C02: misaligned slice must be BadAlign"); return; }
     if let Ok(v) = r {
         assert!(core::mem::size_of_val(v) <= len, "C04: mapped value claims more bytes than the slice");
         assert!(v.size() <= len, "C05: size() exceeds the mapped bytes");
-        assert!(v.v.len() <= v.v.capacity());
+        assert!(v.v.len() <= v.v.capacity(), "C02: len > capacity in an accepted view");
     }
 }
 
@@ -189,14 +191,15 @@ fn c01_sbool() {
     let (len, off) = any_len_off(N, 4);
     let b = sym_slice(len, 4, off, N);
     let r = SBool::validate(b);
-    if off != 0 { assert!(matches!(r, Err(ref e) if e.kind == ErrorKind::BadAlign)); return; }
-    if len < 12 { assert!(matches!(r, Err(ref e) if e.kind == ErrorKind::InsufficientSize)); return; }
+    if off != 0 { assert!(matches!(r, Err(ref e) if e.kind == ErrorKind::BadAlign), "C02: misaligned slice must be BadAlign"); return; }
+    if len < 12 { assert!(matches!(r, Err(ref e) if e.kind == ErrorKind::InsufficientSize), "C02,C06: short input must be InsufficientSize"); return; }
     // layout by the C rule: x@0 (u16), flag@2, arr@3..5, y@8
     let ok = b[2] <= 1 && b[3] <= 1 && b[4] <= 1;
-    assert!(r.is_ok() == ok);
+    assert!(r.is_ok() == ok, "C02: acceptance differs from the reference decoder");
     if let Err(e) = r {
-        assert!(e.kind == ErrorKind::InvalidData);
-        assert!(e.pos >= 2 && e.pos <= 4 && b[e.pos] > 1, "C19: error position is not an offending byte");
+        assert!(e.kind == ErrorKind::InvalidData, "C02: wrong error kind for a bad Bool");
+        assert!(e.pos >= 2 && e.pos <= 4, "C19: error position is not an offending byte");
+        assert!(b[e.pos] > 1, "C19: error position is not an offending byte");
     }
 }
 
@@ -209,17 +212,17 @@ fn c01_senum_cenum() {
     let b = sym_slice(len, 2, off, N);
     let r = SEnum::validate(b);
     if off == 0 && len >= core::mem::size_of::<SEnum>() {
-        assert!(r.is_ok() == (b[0] <= 3));
-        if let Err(e) = r { assert!(e.kind == ErrorKind::InvalidEnumTag && e.pos == 0); }
+        assert!(r.is_ok() == (b[0] <= 3), "C02: acceptance differs from the tag range");
+        if let Err(e) = r { assert!(e.kind == ErrorKind::InvalidEnumTag, "C02: wrong error kind for a bad tag"); assert!(e.pos == 0, "C19: tag error not reported at the tag byte"); }
     } else {
-        assert!(r.is_err());
+        assert!(r.is_err(), "C02: short or misaligned slice accepted");
     }
     let c = CEnum::validate(b);
     if len >= 1 {
-        assert!(c.is_ok() == (b[0] <= 2));
-        if let Err(e) = c { assert!(e.kind == ErrorKind::InvalidEnumTag && e.pos == 0); }
+        assert!(c.is_ok() == (b[0] <= 2), "C02: acceptance differs from the tag range");
+        if let Err(e) = c { assert!(e.kind == ErrorKind::InvalidEnumTag, "C02: wrong error kind for a bad tag"); assert!(e.pos == 0, "C19: tag error not reported at the tag byte"); }
     } else {
-        assert!(matches!(c, Err(ref e) if e.kind == ErrorKind::InsufficientSize));
+        assert!(matches!(c, Err(ref e) if e.kind == ErrorKind::InsufficientSize), "C02,C06: short input must be InsufficientSize");
     }
 }
 
@@ -231,18 +234,19 @@ fn c19_uboolvec() {
     let (len, off) = any_len_off(N, 1);
     let b = sym_slice(len, 1, off, N);
     let r = UBoolVec::validate(b);
-    if len < 2 { assert!(r.is_err()); return; }
+    if len < 2 { assert!(r.is_err(), "C02: short slice accepted"); return; }
     let n = b[1] as usize;
-    if n > len - 2 { assert!(matches!(r, Err(ref e) if e.kind == ErrorKind::InsufficientSize)); return; }
+    if n > len - 2 { assert!(matches!(r, Err(ref e) if e.kind == ErrorKind::InsufficientSize), "C02,C06: len > capacity must be InsufficientSize"); return; }
     let mut any_bad = false;
     let mut i = 0;
     while i < N {
         if i < n && b[2 + i] > 1 { any_bad = true; }
         i += 1;
     }
-    assert!(r.is_ok() == !any_bad);
+    assert!(r.is_ok() == !any_bad, "C02: acceptance differs from the reference decoder");
     if let Err(e) = r {
-        assert!(e.kind == ErrorKind::InvalidData);
-        assert!(e.pos >= 2 && e.pos < 2 + n && b[e.pos] > 1, "C19: error position is not an offending byte");
+        assert!(e.kind == ErrorKind::InvalidData, "C02: wrong error kind for a bad Bool");
+        assert!(e.pos >= 2 && e.pos < 2 + n, "C19: error position is not an offending byte");
+        assert!(b[e.pos] > 1, "C19: error position is not an offending byte");
     }
 }
